@@ -107,6 +107,7 @@ func Generate(r *rand.Rand, hosts []string, o Opts) *Generated {
 		return out
 	}
 	day := 0
+	twins := map[*Node]*Node{}
 	newPost := func(host string) *Node {
 		p := g.NewPost(host)
 		day++
@@ -174,7 +175,17 @@ func Generate(r *rand.Rand, hosts []string, o Opts) *Generated {
 			reply.Parent = g.mention(p, reply.Host)
 			e := g.mention(reply, c.Host)
 			if g.anomalous(o) {
-				switch r.Intn(7) {
+				switch r.Intn(8) {
+				case 7: // replies to another post whose address differs from this one's only in letter case (paths and queries are case-sensitive)
+					twin := twins[p]
+					if twin == nil {
+						twin = newPost(p.Host)
+						if i := strings.LastIndexAny(p.ID, "/="); i >= 0 {
+							twin.ID = p.ID[:i+1] + strings.ToUpper(p.ID[i+1:]) // one twin per post: an address serves one document
+						}
+						twins[p] = twin
+					}
+					reply.Parent = URL(twin)
 				case 0: // replies to another post
 					if len(g.Posts) > 2 {
 						reply.Parent = URL(g.Posts[r.Intn(len(g.Posts)-1)])
